@@ -86,4 +86,30 @@ theorem resolveSymOnce_not_idempotent :
     Sym.resolveSymOnce nestedLinks [['b'], ['c'], ['x']] = .ok [['d'], ['x']] ∧
     Sym.resolveSym nestedLinks [['a'], ['c'], ['x']] = .ok [['d'], ['x']] := by decide
 
+/-! ## round 5: a symbolic link in the working directory of the *process* moved the watch paths of included files
+
+Before `fix: utils.ResolveSymbolicLink leaves a relative path alone …` the components of the relative first-stage result
+(`b/x` for `path: x` in a file of the directory `b`) were `Lstat`ed from the working directory of the process.
+`cwdLink`: that directory holds a link `b → /e` (the answer to an absolute path is the identity here: no other link).
+It satisfies the second condition of `SymOK` but not the first, and two-stage = one-stage fails. -/
+
+def cwdLink (s : Str) : Option Str :=
+  if s = ['b', '/', 'x'] then some ['/', 'e', '/', 'x'] else some s
+
+/-- what `absSymbolicLink` computes on a string -/
+def watchStr (sym : Str → Option Str) (cfg : Cfg) (s : Str) : Option Str := sym (absPathStr cfg s)
+
+/-- `path: x` in an included file of the directory `b`, project directory `/w`: the loaded watch path was `/e/x`,
+the property says `/w/b/x` -/
+theorem compose_failed_cwd_symlink :
+    (watchStr cwdLink ⟨['b'], H, fun _ => false, cwdLink⟩ ['x']).bind (watchStr cwdLink ⟨W, H, fun _ => false, cwdLink⟩)
+        = some ['/', 'e', '/', 'x'] ∧
+    watchStr cwdLink ⟨join W ['b'], H, fun _ => false, cwdLink⟩ ['x'] = some ['/', 'w', '/', 'b', '/', 'x'] := by decide
+
+/-- the repaired function does not consult anything for the relative path: same input, both ways `/w/b/x` -/
+theorem repaired_cwd_symlink :
+    (watchStr (Sym.resolveStr (Sym.ofTable [])) ⟨['b'], H, fun _ => false, some⟩ ['x']).bind
+        (watchStr (Sym.resolveStr (Sym.ofTable [])) ⟨W, H, fun _ => false, some⟩)
+      = watchStr (Sym.resolveStr (Sym.ofTable [])) ⟨join W ['b'], H, fun _ => false, some⟩ ['x'] := by decide
+
 end CV.Paths.Neg
